@@ -421,11 +421,14 @@ class Ctx:
     def model(self, cases, timeout=900):
         res = run_stream(self.model_bin, cases, timeout=timeout, per_case_recover=False)
         if self.tier == "thorough" and len(self.vm_sample) < 300:
+            # printed now: the caller may go on to mutate its case objects (C14 completes its tables in place)
+            took = 0
             for c, r in zip(cases, res):
-                if len(self.vm_sample) >= 300:
+                if len(self.vm_sample) >= 300 or took >= 100:
                     break
                 if coq_printable(c) and coq_printable(r):
-                    self.vm_sample.append((c, r))
+                    self.vm_sample.append((coq_val(c), coq_val(r)))
+                    took += 1
         return res
 
     def cleanup(self):
@@ -571,7 +574,7 @@ def vm_crosscheck(ctx):
         f.write("From Coq Require Import String List ZArith.\nFrom Bkl Require Import Model.Value Model.Driver.\nImport ListNotations.\n"
                 "Local Open Scope string_scope.\nLocal Open Scope list_scope.\n")
         f.write("Definition cases : list (value * value) := [\n")
-        f.write(";\n".join("(%s, %s)" % (coq_val(c), coq_val(r)) for c, r in ctx.vm_sample))
+        f.write(";\n".join("(%s, %s)" % (c, r) for c, r in ctx.vm_sample))
         f.write("].\n")
         f.write("Definition mismatches : nat := List.length (filter (fun cr => negb (deep_eqb (run_case (fst cr)) (snd cr))) cases).\n")
         f.write("Definition M := Eval vm_compute in mismatches.\nPrint M.\n")
